@@ -14,8 +14,8 @@ coq = os.path.join(os.path.dirname(os.path.abspath(__file__)), "..", "coq")
 v = head + "\nFrom J5V.lib Require Import Outcome Corr.\nImport ListNotations.\nLocal Open Scope N_scope.\n"
 v += "Definition the_case := (%s).\n" % case
 if case.startswith("CEdit"):
-    v += """Definition model_out := match the_case with CEdit bd es bd' pkg ok ok' okall okall' files files' => (compile bd pkg, compile bd' pkg, compile (apply_edits bd es) pkg, valid bd, valid (apply_edits bd es)) end.
-Definition real_out := match the_case with CEdit bd es bd' pkg ok ok' okall okall' files files' => (ok, ok', okall, okall', files, files') end.
+    v += """Definition model_out := match the_case with CEdit bd es bd' pkg ok ok' okall okall' embeds files files' => (compile bd pkg, compile bd' pkg, compile (apply_edits bd es) pkg, valid bd, valid (apply_edits bd es)) end.
+Definition real_out := match the_case with CEdit bd es bd' pkg ok ok' okall okall' embeds files files' => (ok, ok', okall, okall', files, files') end.
 """
 else:
     v += """Definition model_out := match the_case with CCompile bd pkg ok files => (compile bd pkg, valid bd) | CCompileV bd pkg ok okall exact files => (compile bd pkg, valid bd) end.
